@@ -137,6 +137,12 @@ def _junit_counts(fn) -> dict[str, str]:
             if key not in ("tests", "errors", "failures", "skipped"):
                 continue
             v = s.args[1]
+            # str(len(<tests>)) counts every test
+            if (isinstance(v, ast.Call) and isinstance(v.func, ast.Name) and v.func.id == "str" and len(v.args) == 1
+                    and isinstance(v.args[0], ast.Call) and isinstance(v.args[0].func, ast.Name)
+                    and v.args[0].func.id == "len"):
+                out[key] = "*"
+                continue
             # str(sum(<genexp>))
             if not (isinstance(v, ast.Call) and isinstance(v.func, ast.Name) and v.func.id == "str"
                     and isinstance(v.args[0], ast.Call) and isinstance(v.args[0].func, ast.Name)
